@@ -490,8 +490,16 @@ class StmtMixin:
             try: bt = self.ty(b['type'].get('desugaredQualType') or b['type']['qualType'])
             except Unsupported:
                 self.dropped['base class %s (assumed field-less: CRTP/interface)' % b['type']['qualType']] += 1; continue
-            if bt.kind == 'rec' and any(f.get('kind') == 'FieldDecl' for f in bt.rec.get('inner', [])):
-                raise Unsupported('base class with fields: %s' % bt.c)
+            brec = bt.rec if bt.rec is not None else None
+            if brec is not None and any(f.get('kind') == 'FieldDecl' for f in brec.get('inner', [])):
+                # single inheritance from a plain record: its fields come first (flattened)
+                self.rules['base-class-fields-flattened'] += 1
+                for f in brec.get('inner', []):
+                    if f.get('kind') != 'FieldDecl': continue
+                    t = self.tyq(f['type'])
+                    if t.ref: lines.append('  %s%s* %s;' % ('const ' if t.const else '', t.c, f['name']))
+                    else: lines.append('  %s %s;' % (t.c, f['name']))
+                    nf += 1
         for f in r.get('inner', []):
             if f.get('kind') != 'FieldDecl': continue
             t = self.tyq(f['type'])
